@@ -337,6 +337,9 @@ def private_witness(rep, repo):
         raise AnalysisBroken('witness unit %s missing' % src)
     r = subprocess.run(['clang++', '-std=gnu++20', '-fsyntax-only', '-I' + repo, src], capture_output=True, text=True)
     ok = r.returncode == 0
+    if not ok and 'static_assert' not in r.stderr and 'static assertion' not in r.stderr:
+        raise AnalysisBroken('witness w_c16_private.cpp does not compile for another reason than its static_asserts:\n'
+                             + r.stderr[-1500:])
     rep.inst('R-WHOLINKS', 'igris::timer_head_basic', 'static_assert:lnk/_start/_interval/timer_list-private,not-copyable',
              ok, 'igris/time/timer_manager.h', None if ok else r.stderr[-900:])
 
@@ -466,6 +469,28 @@ def rearm_rule(rep, A):
     rep.inst(R, name, 'exec-changes-deadlines-only-through-shift', ok, (others + stores)[0].where() if not ok else where,
              None if ok else 'exec writes memory / deadline fields other than by shift() (drift: the new deadline must be '
              'the previous deadline plus the interval, not derived from curtime)')
+
+
+def callback_forwarding(rep, mod):
+    """igris::timer<Args...>::execute() (the body behind exec's virtual call) applies the stored delegate to the
+    stored argument tuple, exactly once"""
+    fs = [f for f in mod.defined() if f.scope.startswith('igris::timer_basic<') and f.srcname == 'execute']
+    if not fs:
+        raise AnalysisBroken('igris::timer_basic<...>::execute not instantiated in the witness')
+    for f in fs:
+        sn = tyname(f.params[0]['ty']['elem'])
+        od, oa = mod.field_off(sn, 'dlg'), mod.field_off(sn, 'args')
+        if od is None or oa is None:
+            raise AnalysisBroken('fields dlg/args of %s not found in debug info' % sn)
+        cs = [i for i in f.calls() if not is_intrinsic(i)]
+        ok = len(cs) == 1 and callee_base(mod, cs[0]) == 'apply' and len(cs[0].ops) == 2
+        if ok:
+            (r0, o0), (r1, o1) = trace_const(f, cs[0].ops[0]), trace_const(f, cs[0].ops[1])
+            ok = r0.k == 'arg' and r0.argno == 0 and o0 == od and r1.k == 'arg' and r1.argno == 0 and o1 == oa
+        ok = ok and not f.loops and not any(i.op == 'store' for i in f.all_insts())
+        rep.inst('R-REARM', f.qualname, 'execute-applies-stored-delegate-to-stored-args-once', ok,
+                 '%s:%d' % (f.file, f.line),
+                 None if ok else 'timer_basic::execute() must be exactly std::apply(dlg, args)')
 
 
 # ---------------------------------------------------------------------------
@@ -1317,6 +1342,7 @@ def run(rep, repo, tier):
         nscen += plan_scenarios(rep, A, 5 if tier == 'thorough' else 3)
         nscen += exec_scenarios(rep, A, tier)
         nscen += head_scenarios(rep, A)
+    callback_forwarding(rep, mod)
     private_witness(rep, repo)
     stimer_rules(rep, repo)
     rep.extra['scenarios'] = {'explicit_list_configurations': nscen}
